@@ -12,6 +12,8 @@ import z3
 from contracts.common import *  # noqa
 from contracts import common
 from pyvc import driver
+from contracts import tokens_c
+from contracts.tokens_c import unit_quoted_string, unit_instruction_pointer, unit_angle_char, unit_get_as_str, unit_string_concat  # noqa
 from pyvc.engine import LoopSpec, CompSpec, dict_fns, abstract_seq, LISTFN, DICTFN
 
 ID = "C14"
@@ -341,7 +343,7 @@ result = [n, len(cps), bad]
 
 def units(tier):
     return [("tables", "unit_closed", {}), ("encode", "unit_encode", {}), ("decode", "unit_decode", {}), ("charliteral", "unit_charliteral", {}),
-            ("rac", "unit_rac", dict(tier=tier)), ("string-path", "unit_string_path", dict(tier=tier))]
+            ("rac", "unit_rac", dict(tier=tier)), ("string-path", "unit_string_path", dict(tier=tier)), ("QuotedString", "unit_quoted_string", {})]
 
 
 def canary(eng):
